@@ -56,7 +56,7 @@ class PackList:
         return sum([i.bitlen() for i in self.lst])
     
     def pack(self, val):
-        return functools.reduce(lambda x,y: x+y, [i.pack(j) for (i,j) in zip(self.lst, val)])
+        return functools.reduce(lambda x,y: x+y, [i.pack(j) for (i,j) in zip(self.lst, val)], []) # (an empty list packs to no bits)
         
     def unpack(self, bits, pos):
         def unpacknext(i):
@@ -82,7 +82,7 @@ class PackRepeat:
         return self.packer.bitlen()*self.times
     
     def pack(self, val):
-        return functools.reduce(lambda x,y: x+y, map(self.packer.pack, val))
+        return functools.reduce(lambda x,y: x+y, map(self.packer.pack, val), [])
         
     def unpack(self, bits, pos):
         bl = self.packer.bitlen()
